@@ -277,6 +277,8 @@ def concrete_witness(got, want, signs, seed=0, tries=400):
                 env[s] = 0
             else:
                 env[s] = rnd.randint(-4, 6)
+        if not facts_hold(signs, env):
+            continue
         try:
             g, w = ev(got, env), ev(want, env)
         except (ZeroDivisionError, KeyError):
@@ -354,6 +356,8 @@ def concrete_disagreement(ev, fn, args, signs, wants, seed=0, tries=80):
     else:
         members = (sample_env(names, signs, rnd) for _ in range(tries))
     for env in members:
+        if not facts_hold(signs, env):
+            continue
         penv = {k: P.const(v) for k, v in env.items()}
         try:
             cargs = [a.subst(penv) if isinstance(a, P) else a for a in args]
@@ -375,6 +379,237 @@ def concrete_disagreement(ev, fn, args, signs, wants, seed=0, tries=80):
             if g != wv:
                 return dict(assignment=env, observable_offset=off, got=repr(g), want=repr(wv), members_evaluated=decided)
     return None
+
+
+
+# ---- case splitting on comparisons that the declared case does not fix ----------------------------------------------------------------------
+MAX_SPLIT_DEPTH = 12
+MAX_SPLIT_LEAVES = 400
+_IDENT = re.compile(r"^[A-Za-z_]\w*$")
+
+
+def facts_hold(signs, env):
+    """do the sub-case's assumed facts hold at a concrete member?  (members that violate them are outside the sub-case)"""
+    ok = {POS: lambda v: v > 0, NEG: lambda v: v < 0, ZERO: lambda v: v == 0, NONNEG: lambda v: v >= 0, NONPOS: lambda v: v <= 0, NONZERO: lambda v: v != 0}
+    for q, cls in (signs.get("__facts") or []):
+        try:
+            v = eval_poly(q, env)
+        except (KeyError, ZeroDivisionError):
+            return False          # an assumption that cannot be evaluated at this member: the member is not known to belong to the sub-case
+        if cls in ok and not ok[cls](v):
+            return False
+    return True
+
+
+def _refine(signs, d, cls):
+    """signs extended by the assumption `d has class cls`; None when that contradicts what is already known (the sub-case is empty)"""
+    from .poly import meet, sign as psign, negcls
+    cur = psign(d, signs)
+    m = meet(cur, cls)
+    if m is None:
+        return None
+    s2 = dict(signs)
+    # a single symbol: refine its class directly (every later sign computation sees it)
+    mons = [(mn, co) for mn, co in d.t.items() if mn != ()]
+    c0 = d.t.get((), 0)
+    if len(mons) == 1 and c0 == 0 and len(mons[0][0]) == 1 and mons[0][0][0][1] == 1 and _IDENT.match(mons[0][0][0][0]):
+        sym, co = mons[0][0][0][0], mons[0][1]
+        s2[sym] = meet(signs.get(sym, ANY), cls if co > 0 else negcls(cls)) or signs.get(sym, ANY)
+        return s2
+    s2["__facts"] = list(signs.get("__facts") or []) + [(d, m)]
+    return s2
+
+
+def subcases(rel, signs):
+    """[(description, substitution or None, signs)] partitioning the current case on the comparison rel = (pred, a, b); [] when it cannot be split"""
+    from .poly import meet, sign as psign
+    pred, a, b = rel
+    if not (isinstance(a, P) and isinstance(b, P)):
+        return []
+    d = a - b
+    if d.is_const():
+        return []
+    out = []
+    if pred in ("eq", "ne"):
+        done = False
+        # a single monomial c*x*y*...: it vanishes exactly when one of its factors does; when all factors but one are known to be non-zero, that one is zero
+        if len(d.t) == 1 and () not in d.t:
+            (mn, co), = d.t.items()
+            cands = [sy for sy, e_ in mn if signs.get(sy, ANY) not in (POS, NEG, NONZERO)]
+            if len(cands) == 1 and _IDENT.match(cands[0]) and cands[0] not in ("base", "out"):
+                sym = cands[0]
+                d = P.sym(sym)          # the comparison is equivalent to sym == 0 / sym != 0
+        # d == 0 where every monomial has the same weak sign (a position written in digits, a sum of sizes): every monomial vanishes, so every
+        # symbol that stands alone in a monomial is zero
+        if d.t.get((), 0) == 0:
+            mcls = [psign(P({mn: co}), signs) for mn, co in d.t.items()]
+            if all(c_ in (POS, NONNEG, ZERO) for c_ in mcls) or all(c_ in (NEG, NONPOS, ZERO) for c_ in mcls):
+                done = True
+                if not any(c_ in (POS, NEG) for c_ in mcls):
+                    sub0 = {mn[0][0]: P.const(0) for mn, co in d.t.items() if len(mn) == 1 and mn[0][1] == 1 and _IDENT.match(mn[0][0])}
+                    if sub0 and all(meet(signs.get(sy, ANY), ZERO) is not None for sy in sub0):
+                        s2 = {k_: v_ for k_, v_ in signs.items() if k_ != "__facts"}
+                        for q_, c_ in (signs.get("__facts") or []):
+                            if s2 is None:
+                                break
+                            q2 = q_.subst(sub0)
+                            if q2.is_const():
+                                v_ = q2.const_value()
+                                if not {POS: v_ > 0, NEG: v_ < 0, ZERO: v_ == 0, NONNEG: v_ >= 0, NONPOS: v_ <= 0, NONZERO: v_ != 0}.get(c_, True):
+                                    s2 = None
+                            else:
+                                s2 = _refine(s2, q2, c_)
+                        rest = d.subst(sub0)
+                        if s2 is not None and not rest.is_zero():
+                            s2 = _refine(s2, rest, ZERO)
+                        if s2 is not None:
+                            out.append((" & ".join("%s=0" % sy for sy in sorted(sub0)), sub0, s2))
+                    else:
+                        s2 = _refine(signs, d, ZERO)
+                        if s2 is not None:
+                            out.append(("%r=0" % d, None, s2))
+        # d == 0: solve for a symbol that occurs only linearly with coefficient +-1, so that the sub-case is again a polynomial case
+        for mn, co in (() if done else d.t.items()):
+            if len(mn) == 1 and mn[0][1] == 1 and abs(co) == 1 and _IDENT.match(mn[0][0]) and mn[0][0] not in ("base", "out"):
+                sym = mn[0][0]
+                rest = d - P({mn: co})
+                val = rest * (-1 if co == 1 else 1)
+                if sym in val.symbols():
+                    continue
+                cls = signs.get(sym, ANY)
+                if meet(psign(val, signs), cls) is None:
+                    done = True        # the equality cannot hold in this case: only the != sub-case remains
+                    break
+                # carry the assumptions made so far over to the substituted case (a contradiction makes the sub-case empty)
+                s2 = {k_: v_ for k_, v_ in signs.items() if k_ != "__facts"}
+                pend = [(q_.subst({sym: val}), c_) for q_, c_ in (signs.get("__facts") or [])]
+                if cls != ANY:
+                    pend.append((val, cls))
+                for q_, c_ in pend:
+                    if s2 is None:
+                        break
+                    if q_.is_const():
+                        v_ = q_.const_value()
+                        okc = {POS: v_ > 0, NEG: v_ < 0, ZERO: v_ == 0, NONNEG: v_ >= 0, NONPOS: v_ <= 0, NONZERO: v_ != 0}.get(c_, True)
+                        if not okc:
+                            s2 = None
+                    else:
+                        s2 = _refine(s2, q_, c_)
+                if s2 is not None:
+                    out.append(("%s=%r" % (sym, val), {sym: val}, s2))
+                done = True
+                break
+        if not done:
+            s2 = _refine(signs, d, ZERO)
+            if s2 is not None:
+                out.append(("%r=0" % d, None, s2))
+        s3 = _refine(signs, d, NONZERO)
+        if s3 is not None:
+            out.append(("%r!=0" % d, None, s3))
+        return out
+    parts = {"slt": (NEG, NONNEG), "sle": (NONPOS, POS), "sgt": (POS, NONPOS), "sge": (NONNEG, NEG)}.get(pred)
+    if parts is None:
+        return []
+    names = {NEG: "<0", NONNEG: ">=0", NONPOS: "<=0", POS: ">0"}
+    for cls in parts:
+        s2 = _refine(signs, d, cls)
+        if s2 is not None:
+            out.append(("%r%s" % (d, names[cls]), None, s2))
+    return out
+
+
+
+def deep_subst(p, sub, signs):
+    """substitution that also reaches the operands of uninterpreted atoms (div[a|b], ite[c|x|y]): the atom is rebuilt from the substituted operands
+    (a division may then simplify)"""
+    if not isinstance(p, P):
+        return p
+    sub = sub or {}
+    env = dict(sub)
+    for sy in p.symbols():
+        if sy in env or sy not in irval._atoms:
+            continue
+        kind, args = irval._atoms[sy]
+        nargs = [deep_subst(a, sub, signs) if isinstance(a, P) else a for a in args]
+        if kind == "div":
+            env[sy] = irval.sdiv(nargs[0], nargs[1], signs)
+        elif kind == "ite":
+            env[sy] = nargs[1] if (isinstance(nargs[1], P) and nargs[1] == nargs[2]) else irval.atom("ite", *nargs)
+            if sy in irval.ITE_REL and not (isinstance(nargs[1], P) and nargs[1] == nargs[2]):
+                pr, a_, b_ = irval.ITE_REL[sy]
+                irval.ITE_REL[next(iter(env[sy].symbols()))] = (pr, deep_subst(a_, sub, signs), deep_subst(b_, sub, signs))
+    return p.subst(env)
+
+
+def deep_subst_view(v, sub, signs):
+    return vs.SymView(deep_subst(v.b, sub, signs), [vs.Dim(deep_subst(d.s, sub, signs), deep_subst(d.f, sub, signs), deep_subst(d.z, sub, signs)) for d in v.dims])
+
+
+_leafcount = [0]
+
+
+def _inner_ite_rel(rel, depth=0):
+    if depth > 6:
+        return None
+    for q in rel[1:]:
+        if not isinstance(q, P):
+            continue
+        for sy in q.symbols():
+            if sy.startswith("ite[") and sy in irval.ITE_REL:
+                r = irval.ITE_REL[sy]
+                return _inner_ite_rel(r, depth + 1) or r
+            if sy in irval._atoms:
+                kind, args = irval._atoms[sy]
+                r = _inner_ite_rel((None,) + tuple(a for a in args if isinstance(a, P)), depth + 1)
+                if r is not None:
+                    return r
+    return None
+
+
+def split_run(ev, fn, args, signs, depth=0, desc="", subst=None, offs=None):
+    """Evaluate fn symbolically; where the library branches (or selects) on a comparison that the case does not fix, partition the case on that
+    comparison and evaluate each part again (each part is a polynomial case: an equality is solved for a symbol and substituted, the other parts
+    are sign assumptions).  Returns the leaves [(description, substitution, signs, args, stores or None, exception or None)]."""
+    exc = st = rel = None
+    try:
+        ev.run(fn, args, signs)
+        st = dict(ev.stores)
+        for off_, g in st.items():
+            if offs is not None and off_ not in offs:
+                continue          # an observable nobody compares
+            if isinstance(g, P):
+                for sy in g.symbols():
+                    if sy.startswith("ite[") and sy in irval.ITE_REL:
+                        rel = irval.ITE_REL[sy]
+                        break
+            if rel is not None:
+                break
+    except irval.Inconclusive as e:
+        exc = e
+        rel = getattr(e, "rel", None)
+    except irval.AssertFires as e:
+        return [(desc, subst or {}, signs, args, None, e)]
+    if rel is not None:
+        # a comparison over a value that is itself a selection (ite[...], possibly inside a division): decide the selection's own condition first
+        inner = _inner_ite_rel(rel)
+        if inner is not None:
+            rel = inner
+    if rel is None or depth >= MAX_SPLIT_DEPTH:
+        return [(desc, subst or {}, signs, args, st, exc)]
+    subs = subcases(rel, signs)
+    if len(subs) == 0 or _leafcount[0] > MAX_SPLIT_LEAVES:
+        return [(desc, subst or {}, signs, args, st, exc)]
+    if depth == 0:
+        _leafcount[0] = 0
+    _leafcount[0] += len(subs)
+    out = []
+    for d2, sub2, signs2 in subs:
+        args2 = [a.subst(sub2) if (sub2 and isinstance(a, P)) else a for a in args]
+        comp = {k: (v.subst(sub2) if sub2 else v) for k, v in (subst or {}).items()}
+        if sub2:
+            comp.update(sub2)
+        out += split_run(ev, fn, args2, signs2, depth + 1, (desc + " & " if desc else "") + d2, comp, offs)
+    return out
 
 
 class ViewRun:
@@ -419,44 +654,47 @@ class ViewRun:
             idx = [A("i%d" % k) for k in range(5)]
             args = [A("base")] + descriptor_args(D, self.zb, env) + [argsyms[a] for a in op.args] + idx + [A("out")]
             tag = "%s,D=%d%s" % (op.name, D, (",case%d" % ci) if len(op.cases(D, self.zb)) > 1 else "")
-            try:
-                self.ev.run(fname(op, D, self.zb), args, signs)
-                st = self.ev.stores
-            except irval.Inconclusive as e:
-                wants = {0: (want_view.addr(idx[:Dp])) * ELEM}
-                if not (op.addr_only or Dp == 0):
-                    wants[8] = want_view.dims[0].z
-                    wants[16] = want_view.num_elements()
-                    for k, d in enumerate(want_view.dims):
-                        for j, w in enumerate([d.f, d.z, d.s, d.s, d.f * d.s, d.z * d.s]):
-                            wants[8 * (4 + 6 * k + j)] = w
-                wit = concrete_disagreement(self.ev, fname(op, D, self.zb), args, signs, wants, common.seed_from_env())
-                if wit is not None:
-                    rep.violated("%s.addr(%s)" % (fam_prefix, tag), fam_prefix + ".addr",
-                                 "%s (D=%d): the library's result depends on values the case does not fix (%s) and disagrees with the specification on a concrete "
-                                 "member of the case class: observable at out+%d is %s, specification prescribes %s, for %s"
-                                 % (op.expr, D, str(e)[:120], wit["observable_offset"], wit["got"], wit["want"], wit["assignment"]),
-                                 dict(witness=wit, operation=op.expr, D=D))
-                else:
-                    rep.inconclusive("%s.addr(%s)" % (fam_prefix, tag), fam_prefix + ".addr", str(e))
-                continue
-            except irval.AssertFires as e:
-                rep.violated("%s.assert(%s)" % (fam_prefix, tag), fam_prefix + ".assert", str(e))
-                continue
-            # address
-            want = (want_view.addr(idx[:Dp])) * ELEM
-            self.rerun = (self.ev, fname(op, D, self.zb), args, signs)
-            self.compare("%s.addr(%s)" % (fam_prefix, tag), fam_prefix + ".addr", st.get(0), want, signs, op, D, off=0)
-            if op.addr_only or Dp == 0:
-                continue
-            self.compare("%s.size(%s)" % (fam_prefix, tag), fam_prefix + ".shape", st.get(8), want_view.dims[0].z, signs, op, D, off=8)
-            self.compare("%s.num_elements(%s)" % (fam_prefix, tag), fam_prefix + ".shape", st.get(16), want_view.num_elements(), signs, op, D, off=16)
-            self.compare("%s.is_empty(%s)" % (fam_prefix, tag), fam_prefix + ".shape", st.get(24), P.const(0), signs, op, D, off=24)
-            for k, d in enumerate(want_view.dims):
-                wants = [d.f, d.z, d.s, d.s, d.f * d.s, d.z * d.s]
-                for j, (on, w) in enumerate(zip(OBS, wants)):
-                    fam = fam_prefix + (".inv" if on.startswith("raw") else ".shape")
-                    self.compare("%s.%s%d(%s)" % (fam_prefix, on, k, tag), fam, st.get(8 * (4 + 6 * k + j)), w, signs, op, D, off=8 * (4 + 6 * k + j))
+            fn_ = fname(op, D, self.zb)
+            leaves = split_run(self.ev, fn_, args, signs, offs=({0} if (op.addr_only or Dp == 0) else None))
+            for desc, sub, lsigns, largs, st, exc in leaves:
+                ltag = tag + ((",{%s}" % desc) if len(leaves) > 1 else "")
+                wv = deep_subst_view(want_view, sub, lsigns) if (sub or lsigns.get("__facts") or len(leaves) > 1) else want_view
+                lidx = [x.subst(sub) for x in idx] if sub else idx
+                if isinstance(exc, irval.AssertFires):
+                    rep.violated("%s.assert(%s)" % (fam_prefix, ltag), fam_prefix + ".assert", str(exc))
+                    continue
+                if exc is not None:
+                    wants = {0: (wv.addr(lidx[:Dp])) * ELEM}
+                    if not (op.addr_only or Dp == 0):
+                        wants[8] = wv.dims[0].z
+                        wants[16] = wv.num_elements()
+                        for k, d in enumerate(wv.dims):
+                            for j, w in enumerate([d.f, d.z, d.s, d.s, d.f * d.s, d.z * d.s]):
+                                wants[8 * (4 + 6 * k + j)] = w
+                    wit = concrete_disagreement(self.ev, fn_, largs, lsigns, wants, common.seed_from_env())
+                    if wit is not None:
+                        rep.violated("%s.addr(%s)" % (fam_prefix, ltag), fam_prefix + ".addr",
+                                     "%s (D=%d): the library's result depends on values the case does not fix (%s) and disagrees with the specification on a concrete "
+                                     "member of the case class: observable at out+%d is %s, specification prescribes %s, for %s"
+                                     % (op.expr, D, str(exc)[:120], wit["observable_offset"], wit["got"], wit["want"], wit["assignment"]),
+                                     dict(witness=wit, operation=op.expr, D=D))
+                    else:
+                        rep.inconclusive("%s.addr(%s)" % (fam_prefix, ltag), fam_prefix + ".addr", str(exc))
+                    continue
+                # address
+                want = (wv.addr(lidx[:Dp])) * ELEM
+                self.rerun = (self.ev, fn_, largs, lsigns)
+                self.compare("%s.addr(%s)" % (fam_prefix, ltag), fam_prefix + ".addr", st.get(0), want, lsigns, op, D, off=0)
+                if op.addr_only or Dp == 0:
+                    continue
+                self.compare("%s.size(%s)" % (fam_prefix, ltag), fam_prefix + ".shape", st.get(8), wv.dims[0].z, lsigns, op, D, off=8)
+                self.compare("%s.num_elements(%s)" % (fam_prefix, ltag), fam_prefix + ".shape", st.get(16), wv.num_elements(), lsigns, op, D, off=16)
+                self.compare("%s.is_empty(%s)" % (fam_prefix, ltag), fam_prefix + ".shape", st.get(24), P.const(0), lsigns, op, D, off=24)
+                for k, d in enumerate(wv.dims):
+                    wants = [d.f, d.z, d.s, d.s, d.f * d.s, d.z * d.s]
+                    for j, (on, w) in enumerate(zip(OBS, wants)):
+                        fam = fam_prefix + (".inv" if on.startswith("raw") else ".shape")
+                        self.compare("%s.%s%d(%s)" % (fam_prefix, on, k, ltag), fam, st.get(8 * (4 + 6 * k + j)), w, lsigns, op, D, off=8 * (4 + 6 * k + j))
 
     def compare(self, key, fam, got, want, signs, op, D, off=None):
         rep = self.rep
@@ -588,44 +826,44 @@ class CustomRun:
                 if case.get("__name"):
                     ctag = "," + case["__name"]
                 wants = it.wants(case, env) if callable(it.wants) else it.wants
-                try:
-                    self.ev.run(self.fn(i), args, signs)
-                    st = self.ev.stores
-                except irval.Inconclusive as e:
-                    cw = {}
-                    for k, w in wants.items():
+                leaves = split_run(self.ev, self.fn(i), args, signs, offs={8 * (k_[0] if isinstance(k_, tuple) else k_) for k_ in wants})
+                for desc, sub, lsigns, largs, st, exc in leaves:
+                    ltag = ctag + ((",{%s}" % desc) if len(leaves) > 1 else "")
+                    if isinstance(exc, irval.AssertFires):
+                        rep.violated("%s%s.assert" % (it.key, ltag), it.family, str(exc), dict(body=it.body))
+                        continue
+                    if exc is not None:
+                        cw = {}
+                        for k, w in wants.items():
+                            if isinstance(k, tuple):
+                                k = k[0]
+                            if isinstance(w, tuple):
+                                w = w[0]
+                            if isinstance(w, int):
+                                w = P.const(w)
+                            cw[8 * k] = deep_subst(w.subst(env), sub, lsigns)
+                        wit = concrete_disagreement(self.ev, self.fn(i), largs, lsigns, cw, common.seed_from_env())
+                        if wit is not None:
+                            rep.violated("%s%s" % (it.key, ltag), it.family,
+                                         "the library's result depends on values the case does not fix (%s) and disagrees with the specification on a concrete member of "
+                                         "the case class: observable at out+%d is %s, specification prescribes %s, for %s"
+                                         % (str(exc)[:120], wit["observable_offset"], wit["got"], wit["want"], wit["assignment"]), dict(witness=wit, body=it.body))
+                        else:
+                            rep.inconclusive("%s%s" % (it.key, ltag), it.family, str(exc))
+                        continue
+                    for k, w in sorted(wants.items(), key=lambda kv: str(kv[0])):
+                        name = None
                         if isinstance(k, tuple):
-                            k = k[0]
+                            k, name = k
+                        kover = None
                         if isinstance(w, tuple):
-                            w = w[0]
+                            w, kover = w
                         if isinstance(w, int):
                             w = P.const(w)
-                        cw[8 * k] = w.subst(env)
-                    wit = concrete_disagreement(self.ev, self.fn(i), args, signs, cw, common.seed_from_env())
-                    if wit is not None:
-                        rep.violated("%s%s" % (it.key, ctag), it.family,
-                                     "the library's result depends on values the case does not fix (%s) and disagrees with the specification on a concrete member of "
-                                     "the case class: observable at out+%d is %s, specification prescribes %s, for %s"
-                                     % (str(e)[:120], wit["observable_offset"], wit["got"], wit["want"], wit["assignment"]), dict(witness=wit, body=it.body))
-                    else:
-                        rep.inconclusive("%s%s" % (it.key, ctag), it.family, str(e))
-                    continue
-                except irval.AssertFires as e:
-                    rep.violated("%s%s.assert" % (it.key, ctag), it.family, str(e), dict(body=it.body))
-                    continue
-                for k, w in sorted(wants.items(), key=lambda kv: str(kv[0])):
-                    name = None
-                    if isinstance(k, tuple):
-                        k, name = k
-                    kover = None
-                    if isinstance(w, tuple):
-                        w, kover = w
-                    if isinstance(w, int):
-                        w = P.const(w)
-                    w = w.subst(env)
-                    key = kover or "%s%s%s" % (it.key, ("." + name) if name else ("[%d]" % k if len(wants) > 1 else ""), ctag)
-                    cmp_.rerun = (self.ev, self.fn(i), args, signs)
-                    cmp_.compare(key, it.family, st.get(8 * k), w, signs, type("o", (), {"expr": it.body})(), it.D, off=8 * k)
+                        w = deep_subst(w.subst(env), sub, lsigns)
+                        key = (kover + (ltag[len(ctag):] if kover else "")) if kover else "%s%s%s" % (it.key, ("." + name) if name else ("[%d]" % k if len(wants) > 1 else ""), ltag)
+                        cmp_.rerun = (self.ev, self.fn(i), largs, lsigns)
+                        cmp_.compare(key, it.family, st.get(8 * k), w, lsigns, type("o", (), {"expr": it.body})(), it.D, off=8 * k)
 
 
 def view_wants(want_view, idx, elem_bytes=ELEM, byte_off=0, raw=True, shape=True):
